@@ -42,7 +42,7 @@ class Violation(object):
         self.details = details
 
     def key(self):
-        return (self.kind, json.dumps(self.attrs, sort_keys=True, default=repr))
+        return (self.kind, self.what, json.dumps(self.attrs, sort_keys=True, default=repr))
 
 
 class Ctx(object):
